@@ -293,7 +293,7 @@ def r5_r6(ctx, prog):
 
 
 def run(ctx):
-    prog = extract(SCOPE)
+    prog = extract('ALL' if ctx.tier == 'thorough' else SCOPE)
     ctx.guard(r1_heap_protocol, ctx, prog)
     ctx.guard(r2, ctx, prog)
     ctx.guard(r3, ctx, prog)
